@@ -1,5 +1,15 @@
 """C19 - no argument values make the C extension access memory outside its matrices.
-blas.c part: same symbolic run as C17 (vp/checks/c17.py), obligations Q_small / Q_wrap."""
-from vp.checks import c17
-def main(tier): return c17.main(tier, 'C19')
-replay_main = c17.replay_main
+blas.c (all wrappers) and lapack.c (the routines the solvers rely on): the symbolic runs of C17 / C18
+(vp/checks/c17.py, c18.py), obligations Q_small / Q_wrap / direct accesses; one evidence file."""
+from vp.checks import c17, c18
+def main(tier):
+    from vp import common
+    ev = common.Evidence('C19', 'model_checking', tier)
+    v1, k1, h1, i1 = c17.main(tier, 'C19', ev)
+    v2, k2, h2, i2 = c18.main(tier, 'C19', ev)
+    ev.assumptions = sorted(set(ev.assumptions))
+    return common.finish(ev, v1 + v2, sorted(set(k1 + k2)), h1 + h2, i1 + i2)
+def replay_main(path):
+    import json
+    d = json.load(open(path))
+    return (c18 if d.get('key', '').startswith('lapack.') else c17).replay_main(path)
